@@ -19,7 +19,7 @@ def expected_aff_from_file(K, L, assort, diag):
     return aff
 
 
-def make_case(rng, cid, wd, variant=None, defaults=False, edges=None, const_w=False):
+def make_case(rng, cid, wd, variant=None, defaults=False, edges=None, const_w=False, overflow_w=False):
     directed, assort, from_init = variant if variant is not None else (rng.chance(0.5), rng.chance(0.5), rng.chance(0.5))
     e = edges if edges is not None else int_recs(rng)
     recs, L = e['recs'], e['L']
@@ -43,7 +43,12 @@ def make_case(rng, cid, wd, variant=None, defaults=False, edges=None, const_w=Fa
     aff = [0.0] * (K * L if assort else K * K * L)
     if from_init:
         diag = [[rng.choice([0.0, round(rng.unit(), 4), round(3 * rng.unit(), 3), 1e-7]) for _ in range(K)] for _ in range(L)]
-        if const_w:
+        if overflow_w:
+            # two layers of opposite huge values: the layer sums cancel (no membership is ever updated), the first affinity update overflows and
+            # every likelihood is NaN -- NO realization is adopted, and what the front end writes is what IT allocated before the call
+            assert L == 2
+            diag = [[1.79e308] * K, [-1.79e308] * K]
+        elif const_w:
             # one value everywhere: WHERE the reader puts the values is not this caller's subject (C14, C18), only that they are used
             diag = [[round(0.2 + rng.unit(), 3)] * K] * L
         wdata, wstyle = files.render_affinity(rng, K, L, diag)
